@@ -254,6 +254,16 @@ class Gen:
     # ------------------------------------------------------------------ simple executable statements
     def assign(self):
         k = self.r.randrange(8)
+        if self.p(0.04):
+            # ten or more non-trivial parenthesised groups in one statement
+            n = self.r.randrange(10, 14)
+            return "%s = %s" % (self.rvar(), " + ".join(
+                "%s(%s %s %s)" % (self.ch(NAMES_ARR[:1] + FUNCS), self.ivar(), self.ch("+-*"), self.int_lit())
+                for _ in range(n)))
+        if self.p(0.04):
+            # the same group once doubly and once singly parenthesised
+            e = "%s %s %s" % (self.rvar(), self.ch("+-*"), self.real_lit())
+            return "%s = %s((%s)) %s %s(%s)" % (self.rvar(), self.ch(FUNCS), e, self.ch("+-*/"), self.ch(FUNCS), e)
         if k < 3:
             return "%s = %s" % (self.rvar(), self.rexpr(2))
         if k == 3:
@@ -671,7 +681,8 @@ class Gen:
             pre = self.ch(["", "", "recursive ", "pure "]) if not args == "" else ""
             self.emit("%ssubroutine %s%s" % (pre, name, args), role="open", kind="subroutine", cid=c)
         else:
-            pre = self.ch(["", "real ", "integer ", "recursive ", "elemental "])
+            pre = self.ch(["", "real ", "integer ", "recursive ", "elemental ", "real(wp) ", "character(10) ",
+                           "integer(kind=4) ", "real(8) ", "pure real(wp) ", "double precision "])
             res = " result(resV)" if self.p(0.5) else ""
             self.emit("%sfunction %s(argA)%s" % (pre, name, res), role="open", kind="function", cid=c)
         self.depth += 1
